@@ -29,7 +29,10 @@ FORMS = ["conc", "next", "seq", "var", "value", "push", "pushprop", "slice", "el
          # _x: the source is an expression RESULT (an intermediate), not a declared object; _null: the other arm of a merge is
          # Null (arms cannot be joined into one type); port_ctx*: instance created inside a concurrent context
          "conc_x", "seq_x", "var_x", "push_x", "port_ctx", "port_ctx_x", "ifexp_null", "ifexp_null_x", "ret_null", "ret_null_x",
-         "linit_var_merge", "linit_var_merge_x", "ifexp_x", "ret_x"]
+         "linit_var_merge", "linit_var_merge_x", "ifexp_x", "ret_x",
+         # local declarations initialised from an expression result; Temporary declarations; a locally declared signal read
+         # back through a typed view (lsig_view: the local signal has another vector kind, the view restores the source kind)
+         "linit_var_x", "linit_sig_x", "ltemp", "ltemp_x", "lsig_view", "lvar_view"]
 LIT_FORMS = ["conc", "seq", "var", "push", "init", "slice", "port", "ret", "ifexp", "view", "merge2", "ret2", "pdefault", "linit_var", "ctor"]
 
 
@@ -152,7 +155,7 @@ def expected(s, raw, t):
     return num & mt if -(1 << (wt - 1)) <= num < (1 << (wt - 1)) else None
 
 
-HDR = "from cohdl import std, Entity, Port, Bit, BitVector, Unsigned, Signed, Signal, Variable, Null, Full\nimport cohdl\n"
+HDR = "from cohdl import std, Entity, Port, Bit, BitVector, Unsigned, Signed, Signal, Variable, Temporary, Null, Full\nimport cohdl\n"
 
 
 def render(s, t, form):
@@ -216,6 +219,13 @@ def render(s, t, form):
         L += [seq, "        def proc():", f"            s = Signal[{T}]({src})", "            self.tgt <<= s"]
     elif form == "linit_var":
         L += [seq, "        def proc():", f"            v = Variable[{T}]({src})", "            self.tgt <<= v"]
+    elif form == "ltemp":
+        L += [seq, "        def proc():", f"            tmp = Temporary[{T}]({src})", "            self.tgt <<= tmp"]
+    elif form in ("lsig_view", "lvar_view"):
+        k2 = {"BitVector": "Unsigned", "Unsigned": "Signed", "Signed": "BitVector"}[s[0]]
+        back = {"BitVector": "bitvector", "Unsigned": "unsigned", "Signed": "signed"}[s[0]]
+        q = "Signal" if form == "lsig_view" else "Variable"
+        L += [seq, "        def proc():", f"            loc = {q}[{k2}[{s[1]}]]({src}.{k2.lower()})", f"            self.tgt <<= loc.{back}"]
     elif form == "view":
         L += [con, "        def logic():", f"            self.tgt.{view} <<= {src}"]
     elif form == "view_seq":
@@ -273,6 +283,8 @@ def applicable(s, t, form):
         if s[0] not in ("Bit", "BitVector", "Unsigned", "Signed"):
             return False
         return applicable(s, t, form[:-2])
+    if form in ("lsig_view", "lvar_view"):
+        return is_vec(s)
     if form in ("ifexp_null", "ret_null", "linit_var_merge"):
         return is_vec(t) and s[0] not in ("int", "Null", "Full", "True", "False")
     if form == "port_ctx":
@@ -301,7 +313,7 @@ def analyse(s, t, form):
     if form.endswith("_x"):
         form = form[:-2]
     clocked = form in ("seq", "var", "value", "push", "pushprop", "linit_sig", "linit_var", "view_seq", "pdefault", "linit_var_merge",
-                       "ret", "ret2", "ret_null")
+                       "ret", "ret2", "ret_null", "ltemp", "lsig_view", "lvar_view")
     is_lit = s[0] in ("int", "Null", "Full", "True", "False")
     sim = d.sim(init=dict(clk=0, c=1))
     for raw in src_values(s):
